@@ -362,6 +362,21 @@ func (x *FnExec) contractCall(c *Contract, sig *types.Signature, key string, arg
 	for _, en := range c.Ensures {
 		x.assume(g, pev.evalBool(en.E))
 	}
+	for _, gs := range c.GhostSets {
+		// value computed in the post-state (old() = pre-state), then the ghost location is set
+		val := pev.eval(gs[1].E)
+		loc := pev.evalPlace(gs[0].E)
+		if loc == nil {
+			unsupp("ghostset %s: not a ghost location", gs[0].Text)
+		}
+		vt, ok := val.v.(*Term)
+		if !ok {
+			unsupp("ghostset %s: non-scalar value", gs[0].Text)
+		}
+		nv := tc.Fresh("ghostset", vt.sort)
+		x.assume(g, tc.Eq(nv, vt))
+		x.store(st, loc, nv)
+	}
 	for _, en := range c.Defines {
 		x.assume(g, pev.evalBool(en.E))
 		x.trustedUsed["definitional clause of "+shortKey(c.Key)+": "+en.Text] = true
